@@ -273,6 +273,7 @@ mod verif_nx_pipeline {
             "Result := Alpha + Beta * (Gamma - Delta) + Epsilon.Zeta(Eta, Theta) + Iota;",
             "if (A = B) and (C <> D) or (E < F) then G := H + I + J + K;",
             "X := '''\n  q\n  ''' + Y + Z.W(1, 2);",
+            "x := '''\n                                                                                                    text\n                                                                                                    '''.Replace(aaaaaaa, bbbbbbbbb) + ccccccc mod ddddddd;",
         ];
         let mut n = 0u64;
         for crlf in [false, true] {
@@ -287,6 +288,20 @@ mod verif_nx_pipeline {
                     let (o, _) = fmt(narrow, &p, Vec::new());
                     if w.split(nl).all(|l| l.len() as u32 <= limit) {
                         assert!(o == w, "OB pipeline/limit_not_style: a result for a wider limit that already fits the narrower limit is also the result for the narrower limit\n input={:?} limit={} crlf={}\n wide={:?}\n narrow={:?}", p, limit, crlf, w, o);
+                    }
+                    // C03 / C08 on results that went through the second wrapping pass (re-indented strings)
+                    let (again, _) = fmt(narrow, &o, Vec::new());
+                    assert!(again == o, "OB pipeline/idempotent: formatting the formatter's own output changes nothing\n input={:?} limit={} crlf={}\n first={:?}\n second={:?}", p, limit, crlf, o, again);
+                    let mut in_string = false;
+                    for line in o.split(nl) {
+                        let quotes = line.matches("'''").count();
+                        if !in_string && quotes == 0 {
+                            let ind = line.len() - line.trim_start_matches(' ').len();
+                            assert!(ind % 2 == 0, "OB pipeline/indent_unit: indentation is a whole number of indentation units\n input={:?} limit={} line={:?}\n output={:?}", p, limit, line, o);
+                        }
+                        if quotes % 2 == 1 {
+                            in_string = !in_string;
+                        }
                     }
                     let lines = o.split(nl).count();
                     assert!(lines <= prev_lines, "OB pipeline/wider_never_more_lines: widening wrap_column never increases the number of lines\n input={:?} limit={} crlf={} lines={} previous={}", p, limit, crlf, lines, prev_lines);
